@@ -327,12 +327,16 @@ static void enumerate_unit(const nmc::Tier& t, const nmc::Sink& emit) {
         if (s[0] <= 2) emit(Case("batch_norm", {s}));
         for (long k = 1; k <= d; k++) emit(Case("layer_norm", {s, {k}}));
         for (long nd = 1; nd <= 3; nd++) if (d == nd + 1 || d == nd + 2) emit(Case("instance_norm", {s, {nd}}));
+        // the same with an EXPLICIT epsilon = 0.5 (far from the default 1e-5: an ignored or misplaced argument changes every element)
+        if (s[0] <= 2) emit(Case("batch_norm", {s, {1}}));
+        for (long k = 1; k <= d; k++) emit(Case("layer_norm", {s, {k}, {1}}));
+        for (long nd = 1; nd <= 3; nd++) if (d == nd + 1 || d == nd + 2) emit(Case("instance_norm", {s, {nd}, {1}}));
     });
 #else
     // group_norm: N 1..2, C 1..6 (4 quick) with every divisor as num_groups, trailing extents 1..3
     long Cmax = t.thorough() ? 6 : 4;
     for (long N = 1; N <= 2; N++) for (long C = 1; C <= Cmax; C++) for (long g = 1; g <= C; g++) if (divides(g, C))
-        for (int extra = 0; extra <= 2; extra++) nmc::each_shape(extra, 3, [&](const L& sp) { L s{N, C}; for (long v : sp) s.push_back(v); emit(Case("group_norm", {s, {g}})); });
+        for (int extra = 0; extra <= 2; extra++) nmc::each_shape(extra, 3, [&](const L& sp) { L s{N, C}; for (long v : sp) s.push_back(v); emit(Case("group_norm", {s, {g}})); emit(Case("group_norm", {s, {g}, {1}})); });
 #endif
 }
 static const double EPS_DEFAULT = (double)1e-5f;   // the routines' default argument is float{1e-5}
@@ -343,8 +347,10 @@ static Outcome execute_unit(const Case& c) {
 #ifdef C17_NORM
     if (c.op == "batch_norm") {
         long C = s[1]; RArr mean = values({C}, 3.5, 1.25), var = values({C}, 0.75, 0.5), w = values({C}, 2, 1), b = values({C}, 101, 7);
-        ROpt want = ref::batch_norm(x, mean, var, w, b, EPS_DEFAULT);
+        const bool xeps = c.a.size() > 1;
+        ROpt want = ref::batch_norm(x, mean, var, w, b, xeps ? 0.5 : EPS_DEFAULT);
         auto M = make_arr<double>(mean), V = make_arr<double>(var), W = make_arr<double>(w), Bi = make_arr<double>(b);
+        if (xeps) return both(view::batch_norm(X, M, V, W, Bi, 0.5), na::batch_norm(X, M, V, W, Bi, 0.5), want, x.size() >= 2, 1e-9);
         Outcome r = both(view::batch_norm(X, M, V, W, Bi), na::batch_norm(X, M, V, W, Bi), want, x.size() >= 2, 1e-9);
         if (!r.fail.empty() && d == 3) {   // triage aid: does the result follow the unbatched (C,H,W) reading of a 3-d input?
             ROpt chw = s[0] == C ? ref::batch_norm(x, mean, var, w, b, EPS_DEFAULT, 0) : std::nullopt;
@@ -354,15 +360,23 @@ static Outcome execute_unit(const Case& c) {
     }
     if (c.op == "layer_norm") {
         long k = c.a[1][0]; L ws(s.end() - k, s.end()); RArr w = values(ws, 2, 1), b = values(ws, 101, 7);
-        ROpt want = ref::layer_norm(x, w, b, EPS_DEFAULT);
+        const bool xeps = c.a.size() > 2;
+        ROpt want = ref::layer_norm(x, w, b, xeps ? 0.5 : EPS_DEFAULT);
         auto W = make_arr<double>(w), Bi = make_arr<double>(b);
+        if (xeps) return both(view::layer_norm(X, W, Bi, 0.5), na::layer_norm(X, W, Bi, 0.5), want, nmc::prod(ws) >= 2, 1e-9);
         return both(view::layer_norm(X, W, Bi), na::layer_norm(X, W, Bi), want, nmc::prod(ws) >= 2, 1e-9);
     }
     if (c.op == "instance_norm") {
         long nd = c.a[1][0]; long C = s[(size_t)(d - nd - 1)]; RArr w = values({C}, 2, 1), b = values({C}, 101, 7);
-        ROpt want = ref::instance_norm(x, w, b, nd, EPS_DEFAULT);
+        const bool xeps = c.a.size() > 2;
+        ROpt want = ref::instance_norm(x, w, b, nd, xeps ? 0.5 : EPS_DEFAULT);
         auto W = make_arr<double>(w), Bi = make_arr<double>(b);
         L sp(s.end() - nd, s.end()); bool nt = nmc::prod(sp) >= 2;
+        if (xeps) {
+            if (nd == 1) return both(view::instance_norm_1d(X, W, Bi, 0.5), na::instance_norm_1d(X, W, Bi, 0.5), want, nt, 1e-9);
+            if (nd == 2) return both(view::instance_norm_2d(X, W, Bi, 0.5), na::instance_norm_2d(X, W, Bi, 0.5), want, nt, 1e-9);
+            return both(view::instance_norm_3d(X, W, Bi, 0.5), na::instance_norm_3d(X, W, Bi, 0.5), want, nt, 1e-9);
+        }
         if (nd == 1) return both(view::instance_norm_1d(X, W, Bi), na::instance_norm_1d(X, W, Bi), want, nt, 1e-9);
         if (nd == 2) return both(view::instance_norm_2d(X, W, Bi), na::instance_norm_2d(X, W, Bi), want, nt, 1e-9);
         return both(view::instance_norm_3d(X, W, Bi), na::instance_norm_3d(X, W, Bi), want, nt, 1e-9);
@@ -370,9 +384,11 @@ static Outcome execute_unit(const Case& c) {
 #else
     if (c.op == "group_norm") {
         long C = s[1], g = c.a[1][0]; RArr w = values({C}, 2, 1), b = values({C}, 101, 7);
-        ROpt want = ref::group_norm(x, g, w, b, EPS_DEFAULT);
+        const bool xeps = c.a.size() > 2;
+        ROpt want = ref::group_norm(x, g, w, b, xeps ? 0.5 : EPS_DEFAULT);
         auto W = make_arr<double>(w), Bi = make_arr<double>(b); int G = (int)g;
         L sp(s.begin() + 2, s.end()); bool nt = (C / g) * nmc::prod(sp) >= 2;
+        if (xeps) return both(view::group_norm(X, G, W, Bi, 0.5), na::group_norm(X, G, W, Bi, 0.5), want, nt, 1e-9);
         return both(view::group_norm(X, G, W, Bi), na::group_norm(X, G, W, Bi), want, nt, 1e-9);
     }
 #endif
